@@ -434,6 +434,20 @@ sqf::runtime::runtime::result sqf::runtime::runtime::execute(sqf::runtime::runti
                         else
                         {
                             res = result::ok;
+                            // Nothing executes while this script sleeps, so the deadline
+                            // that execute_do polls per instruction has to be polled here too.
+                            if (m_configuration.max_runtime != std::chrono::milliseconds::zero() &&
+#ifdef SQFVM_RUNTIME_VERIF
+                                m_configuration.max_runtime + m_run_timestamp < sqf::runtime::verif::now())
+#else
+                                m_configuration.max_runtime + m_run_timestamp < std::chrono::system_clock::now())
+#endif
+                            {
+                                __logmsg(logmessage::runtime::MaximumRuntimeReached(m_context_active->current_frame().diag_info_from_position(), m_configuration.max_runtime));
+                                m_runtime_error = false;
+                                log_messages.clear();
+                                exit(0);
+                            }
                         }
                     }
                     else
